@@ -31,6 +31,9 @@
 (*      where the harness cannot see the argument: <<"ok0", rec>>,         *)
 (*      <<"err0">>; rec must match Fill(g, root).                          *)
 (*                                                                         *)
+(*  kind "hist": a history of conversions and field updates on one      *)
+(*      record object (see Hist below).                                    *)
+(*                                                                         *)
 (* Named deviations (enabled by id in VERIF_DEVS) describe the known wrong *)
 (* behaviours of the pinned code so that the rest of the space stays       *)
 (* checked and a different violation is still reported:                    *)
@@ -73,6 +76,7 @@ TypesOk(c) ==
     /\ DOMAIN c.impl = IfaceNames
     /\ \A I \in IfaceNames : SeqSet(c.impl[I]) = Impl(I)
     /\ \A S \in StructNames : c.pkg[S] = PkgOf(S)
+    /\ \A S \in StructNames : c.canon[S] = RegNameOf(S)     \* the first name each type was registered with
 
 (* ---------------------------------------------------------------- forward *)
 OptSets == << [NoOpts EXCEPT !.wrap = TRUE], [NoOpts EXCEPT !.trunc = TRUE],
@@ -102,10 +106,13 @@ FwdVerdict(G, root, out) ==
 
 (* ---------------------------------------------------------------- back *)
 (* rec must be the Go value (objs[1], objs) handed back *)
-RetVerdict(objs, rec) ==
-    IF MatchStruct(objs[1], objs, rec, FALSE) THEN "ok"
-    ELSE IF DevOn("back-drops-field-kinds") /\ MatchStruct(objs[1], objs, rec, TRUE) THEN "known:back-drops-field-kinds"
-    ELSE IF DevOn("back-embedded-field-index") /\ AnyEmb(objs) /\ rec[1] = "rec" /\ rec[2] \in Aliases(objs[1][2])
+(* struct types of which a record of G went in under a second registered name: see Aliases *)
+Loose(G) == {RegOf(G[j][1]) : j \in {j \in 1..Len(G) : G[j][1] \in SecondNames}}
+RetVerdict(G, objs, rec) ==
+    IF MatchStruct(objs[1], objs, rec, MatchOpts(FALSE, Loose(G))) THEN "ok"
+    ELSE IF DevOn("back-drops-field-kinds") /\ MatchStruct(objs[1], objs, rec, MatchOpts(TRUE, Loose(G)))
+    THEN "known:back-drops-field-kinds"
+    ELSE IF DevOn("back-embedded-field-index") /\ AnyEmb(objs) /\ rec[1] = "rec" /\ rec[2] \in Aliases(objs[1][2], Loose(G))
     THEN "known:back-embedded-field-index"
     ELSE "bad"
 RetErrVerdict(objs) ==
@@ -119,7 +126,7 @@ Worst(a, b) == IF a = "bad" \/ b = "bad" THEN "bad" ELSE IF a # "ok" THEN a ELSE
 (* unfolding, the harness does not project it and only the argument is judged               *)
 EchoVerdict(G, root, out) ==
     CASE out[1] = "ok" -> (IF Cyclic(G, root) THEN FwdVerdict(G, root, <<"ok", out[2], out[3]>>)
-                           ELSE Worst(FwdVerdict(G, root, <<"ok", out[2], out[3]>>), RetVerdict(out[3], out[4])))
+                           ELSE Worst(FwdVerdict(G, root, <<"ok", out[2], out[3]>>), RetVerdict(G, out[3], out[4])))
       [] out[1] = "reterr" -> Worst(FwdVerdict(G, root, <<"ok", out[2], out[3]>>), RetErrVerdict(out[3]))
       [] out[1] = "argerr" -> FwdVerdict(G, root, <<"err">>)
       [] OTHER -> LET f == FwdVerdict(G, root, <<"crash">>)
@@ -132,9 +139,9 @@ Echo0Verdict(G, root, out) ==
     LET e0 == Fill(G, root, NoOpts)
         cands == {i \in 1..3 : OptOn(i) /\ Fill(G, root, OptSets[i]).ok}
     IN IF out[1] = "ok0"
-       THEN (IF e0.ok THEN RetVerdict(e0.st.objs, out[2])
-             ELSE IF \E i \in cands : RetVerdict(Fill(G, root, OptSets[i]).st.objs, out[2]) # "bad"
-             THEN "known:" \o OptName(CHOOSE i \in cands : RetVerdict(Fill(G, root, OptSets[i]).st.objs, out[2]) # "bad")
+       THEN (IF e0.ok THEN RetVerdict(G, e0.st.objs, out[2])
+             ELSE IF \E i \in cands : RetVerdict(G, Fill(G, root, OptSets[i]).st.objs, out[2]) # "bad"
+             THEN "known:" \o OptName(CHOOSE i \in cands : RetVerdict(G, Fill(G, root, OptSets[i]).st.objs, out[2]) # "bad")
              ELSE "bad")
        ELSE IF out[1] = "err0" THEN (IF ~e0.ok THEN "ok" ELSE RetErrVerdict(e0.st.objs))
        ELSE FwdVerdict(G, root, <<"crash">>)
@@ -147,8 +154,30 @@ Fold(c, i, acc, first) ==
                     [] OTHER -> Echo0Verdict(c.g, c.root, c.res[i])
          IN Fold(c, i + 1, Worst(acc, v), IF first = 0 /\ v # "ok" THEN i ELSE first)
 
+(* kind "hist": a history on ONE record object -- steps <<"togo">>, <<"self">> ((_method r Self:): the record *)
+(* is the receiver, converted implicitly), <<"set", j, key, value>> ((hset nj key: value)); res[i] is the     *)
+(* outcome of step i.  Every conversion must give what the same step gives on a fresh record with the        *)
+(* contents the record has at that moment: Fill of the current graph -- whatever happened to the object      *)
+(* before (a conversion that failed must not leave anything behind).                                         *)
+SetPair(G, j, key, v) ==
+    LET ps == G[j][2]
+        hit == {i \in 1..Len(ps) : ps[i][1] = key}
+    IN [G EXCEPT ![j][2] = IF hit = {} THEN Append(ps, <<key, v>>)
+                           ELSE [i \in 1..Len(ps) |-> IF i \in hit THEN <<key, v>> ELSE ps[i]]]
+RECURSIVE Hist(_, _, _, _, _)
+Hist(c, G, i, acc, first) ==
+    IF i > Len(c.steps) THEN <<acc, first>>
+    ELSE LET st == c.steps[i]
+             out == c.res[i]
+             v == CASE st[1] = "togo" -> FwdVerdict(G, c.root, out)
+                    [] st[1] = "self" -> EchoVerdict(G, c.root, out)
+                    [] OTHER -> (IF out[1] = "set" THEN "ok" ELSE "bad")
+             G2 == IF st[1] = "set" THEN SetPair(G, st[2], st[3], st[4]) ELSE G
+         IN Hist(c, G2, i + 1, Worst(acc, v), IF first = 0 /\ v # "ok" THEN i ELSE first)
+
 CaseVerdict(c) ==
     IF c.kind = "types" THEN (IF TypesOk(c) THEN <<"ok", 0>> ELSE <<"bad", 0>>)
+    ELSE IF c.kind = "hist" THEN (IF Len(c.res) = Len(c.steps) THEN Hist(c, c.g, 1, "ok", 0) ELSE <<"bad", 0>>)
     ELSE Fold(c, 1, "ok", 0)
 
 TInit == ci \in 1..Len(Cases) /\ verdict = "run"
